@@ -536,7 +536,14 @@ impl<'a> Gen<'a> {
                     (i128::from(self.r.range(0, 3)), i128::from(self.r.range(2, 7)), i128::from(self.r.range(1, 3)))
                 };
                 let lit = |v: i128| if cty == Ty::DInt { format!("{v}") } else { format!("{}#{v}", cty.name()) };
-                let by_txt = if self.r.chance(1, 8) { self.expr(sc, cty, 2) } else { lit(by) };
+                let by_txt = if by < 0 && !cty.is_signed() {
+                    // a negative step for an unsigned control variable can only be written untyped
+                    format!("{by}")
+                } else if self.r.chance(1, 8) {
+                    self.expr(sc, cty, 2)
+                } else {
+                    lit(by)
+                };
                 sc.in_loop += 1;
                 sc.ro.push(Var { name: cname.clone(), ty: cty });
                 let mut body = { let n_ = self.r.usize(1, 3); self.block(sc, n_, depth + 1) };
@@ -685,6 +692,7 @@ pub fn gen_project(r: &mut Rng, knobs: Knobs, size: (usize, usize, usize)) -> Js
     }
     config.push_str("END_VAR\n");
     let two_tasks = n_progs >= 2 && g.r.bool();
+    let bg_two = g.r.bool();
     config.push_str("TASK TA (INTERVAL := T#10ms, PRIORITY := 1);\n");
     if two_tasks {
         config.push_str("TASK TB (INTERVAL := T#20ms, PRIORITY := 0);\n");
@@ -727,17 +735,27 @@ pub fn gen_project(r: &mut Rng, knobs: Knobs, size: (usize, usize, usize)) -> Js
                 sc.std_fbs.push((format!("s{si}"), kind));
             }
         }
-        header.push_str("  k0 : DINT;\n  k1 : INT;\n  k2 : SINT;\n  k3 : UINT;\n  k4 : LINT;\n  k5 : DINT;\n  out_d AT %QD0 : DINT;\n  out_b AT %QX4.0 : BOOL;\nEND_VAR\n");
+        header.push_str("  k0 : DINT;\n  k1 : INT;\n  k2 : SINT;\n  k3 : UINT;\n  k4 : LINT;\n  k5 : DINT;\n  out_d AT %QD0 : DINT;\n  out_b AT %QX4.0 : BOOL;\n");
+        // an output that overlaps out_d with another address and a conflicting value (whoever wins must win everywhere)
+        let overlap = g.r.bool();
+        if overlap {
+            header.push_str(&format!("  out_lo AT %QB{} : BYTE;\n", g.r.below(4)));
+        }
+        header.push_str("END_VAR\n");
         sc.counters = vec!["k5:DINT".into(), "k4:LINT".into(), "k3:UINT".into(), "k2:SINT".into(), "k1:INT".into(), "k0:DINT".into()];
         g.r.shuffle(&mut sc.counters);
         sc.vars.push(Var { name: "out_d".into(), ty: Ty::DInt });
         sc.vars.push(Var { name: "out_b".into(), ty: Ty::Bool });
+        if overlap {
+            sc.vars.push(Var { name: "out_lo".into(), ty: Ty::Byte });
+        }
         sc.funcs = funcs.clone();
         sc.can_return = false;
         let n = g.r.usize(g.k.stmts.0, g.k.stmts.1);
         let stmts: Vec<String> = (0..n).map(|_| g.stmt(&mut sc, 0)).collect();
         pous.push(json!({"kind": "program", "name": name, "header": header, "stmts": stmts, "footer": "END_PROGRAM\n"}));
-        let task = if two_tasks && pi % 2 == 1 { Some("TB") } else if pi == n_progs - 1 && n_progs >= 3 { None } else { Some("TA") };
+        // programs without a task run as background programs, in declaration order, after all tasks
+        let task = if pi >= 2 && (pi == n_progs - 1 || bg_two) { None } else if two_tasks && pi % 2 == 1 { Some("TB") } else { Some("TA") };
         match task {
             Some(t) => config.push_str(&format!("PROGRAM P{pi} WITH {t} : {name};\n")),
             None => config.push_str(&format!("PROGRAM P{pi} : {name};\n")),
@@ -758,11 +776,14 @@ pub fn gen_bulk(r: &mut Rng, n: usize) -> Json {
         let unit = format!(
             "TYPE E{i} : (Ea{i}, Eb{i}, Ec{i}); END_TYPE\nTYPE S{i} : STRUCT a : DINT; b : E{i}; c : ARRAY[0..2] OF INT; END_STRUCT END_TYPE\nTYPE Al{i} : DINT; END_TYPE\n\n\
 INTERFACE I{i}\nMETHOD M{i} : DINT\nVAR_INPUT a : DINT; END_VAR\nEND_METHOD\nEND_INTERFACE\n\n\
-CLASS C{i} IMPLEMENTS I{i}\nVAR v : DINT; END_VAR\nMETHOD PUBLIC M{i} : DINT\nVAR_INPUT a : DINT; END_VAR\nv := (v + a) MOD 1000;\nM{i} := v;\nEND_METHOD\nEND_CLASS\n\n\
+CLASS C{i} IMPLEMENTS I{i}\nVAR v : DINT; END_VAR\nMETHOD PUBLIC M{i} : DINT\nVAR_INPUT a : DINT; END_VAR\nv := (v + a) MOD 1000;\nM{i} := v;\nEND_METHOD\nMETHOD PUBLIC N{i} : DINT\nN{i} := v + 1;\nEND_METHOD\nMETHOD PUBLIC O{i} : DINT\nO{i} := v + 2;\nEND_METHOD\nMETHOD PUBLIC Q{i} : DINT\nQ{i} := v + 3;\nEND_METHOD\nEND_CLASS\n\n\
+CLASS D{i} EXTENDS C{i}\nMETHOD PUBLIC X{i} : DINT\nX{i} := THIS.N{i}() + THIS.O{i}() + THIS.Q{i}();\nEND_METHOD\nEND_CLASS\n\n\
+FUNCTION_BLOCK BaseFb{i}\nVAR s2 : DINT; END_VAR\nMETHOD PUBLIC A1 : DINT\nA1 := s2 + 1;\nEND_METHOD\nMETHOD PUBLIC A2 : DINT\nA2 := s2 + 2;\nEND_METHOD\nMETHOD PUBLIC A3 : DINT\nA3 := s2 + 3;\nEND_METHOD\ns2 := (s2 + {k}) MOD 1000;\nEND_FUNCTION_BLOCK\n\n\
+FUNCTION_BLOCK DerFb{i} EXTENDS BaseFb{i}\nMETHOD PUBLIC A4 : DINT\nA4 := THIS.A1() + THIS.A2() + THIS.A3();\nEND_METHOD\nEND_FUNCTION_BLOCK\n\n\
 FUNCTION G{i} : DINT\nVAR_INPUT a : DINT; END_VAR\nG{i} := (a MOD 100) + {k};\nEND_FUNCTION\n\n\
-FUNCTION_BLOCK B{i}\nVAR_INPUT x : DINT; END_VAR\nVAR_OUTPUT y : DINT; END_VAR\nVAR s : S{i}; c : C{i}; al : Al{i}; r : REF_TO DINT; END_VAR\n\
+FUNCTION_BLOCK B{i}\nVAR_INPUT x : DINT; END_VAR\nVAR_OUTPUT y : DINT; END_VAR\nVAR s : S{i}; c : C{i}; dd : D{i}; df : DerFb{i}; al : Al{i}; r : REF_TO DINT; END_VAR\n\
 METHOD PUBLIC Adv : DINT\nVAR_INPUT k : DINT; END_VAR\ns.a := (s.a + k) MOD 1000;\nAdv := s.a;\nEND_METHOD\n\
-al := G{i}(x);\nr := REF(al);\ny := c.M{i}(x) + THIS.Adv(al) + r^;\n\
+al := G{i}(x);\nr := REF(al);\ndf();\ny := (c.M{i}(x) + THIS.Adv(al) + r^ + dd.M{i}(1) + dd.X{i}() + df.A4()) MOD 100000;\n\
 IF s.b = E{i}#Ea{i} THEN s.b := E{i}#Eb{i}; ELSE s.b := E{i}#Ea{i}; END_IF;\nEND_FUNCTION_BLOCK\n"
         );
         units.push(json!({"id": i, "text": unit, "var": format!("  b{i} : B{i};\n"), "stmt": format!("b{i}(x := t);\nt := (t + b{i}.y) MOD 1000;\n")}));
